@@ -143,11 +143,18 @@ def gen_plan_c19(rng: Rng, tier: str, faulty: bool) -> Dict[str, Any]:
     sessions.append(cur_sess)
     graph_idx = 0
     reuse_dir = rng.chance(0.3)
+    dotted = rng.chance(0.35)       # directory names like run.0 / run.1 (same stem before the last dot)
+    first_zip: Optional[Tuple[str, bool]] = None
     for c in range(cycles):
-        out_dir = "cp/g" if reuse_dir else f"cp/g{c}"
+        stem = "cp/run." if dotted else "cp/g"
+        out_dir = stem.rstrip(".") if reuse_dir else f"{stem}{c}"
         rel_mode = rng.chance(0.25)
         if rel_mode:
-            out_dir = "{N}_rel/g" + ("" if reuse_dir else str(c))
+            out_dir = "{N}_rel/" + stem.split("/")[1] + ("" if reuse_dir else str(c))
+            if reuse_dir:
+                out_dir = out_dir.rstrip(".")
+        if first_zip is None:
+            first_zip = (out_dir + ".zip", not rel_mode)
         if c > 0 and rng.chance(0.5):
             # the documented what-if workflow between two saves: the archives then differ
             cur_sess["ops"].append({"op": "cp_reweight", "graph": graph_idx, "edits": gen_edits(rng)})
@@ -180,6 +187,9 @@ def gen_plan_c19(rng: Rng, tier: str, faulty: bool) -> Dict[str, Any]:
         cur_sess["ops"].append({"op": "cp_breakdown", "graph": graph_idx})
         if rng.chance(0.7):
             cur_sess["ops"].append({"op": "cp_recompute", "graph": graph_idx})
+    if cycles >= 2 and first_zip is not None and rng.chance(0.6):
+        # the first archive is still there after later saves to other directories: restore it again
+        cur_sess["ops"].append({"op": "cp_restore", "zip": first_zip[0], "rank": rank, "abs": first_zip[1]})
     if faulty:
         fr = rng.fork("faults")
         # one fault placed inside a save or a restore (the enumeration batch does this exhaustively)
